@@ -133,6 +133,17 @@ pub fn variants(tier: Tier) -> Vec<WorldSpec> {
         }
     }
     v.push(s);
+    // more connection ids than any small per-boundary table would hold: eleven homographs with
+    // eleven different left ids at one position, then repeats
+    let mut s = cost_spec("W-cost-many-ids");
+    s.matrix = Matrix::distinct(12, 12);
+    for k in 1..=11i32 {
+        s.system.push(Row::new("あ", k, (k * 5) % 11 + 1, 900 + 37 * ((k * 7) % 11), P_NOUN));
+        s.system.push(Row::new("い", 12 - k, (k * 3) % 11 + 1, 1200 - 53 * ((k * 4) % 11), P_NOUN));
+    }
+    s.system.push(Row::new("あ", 1, 11, 400, P_PART));
+    s.system.push(Row::new("あい", 2, 10, 700, P_PART));
+    v.push(s);
     let mut s = cost_spec("W-cost-user-layer");
     s.users.push(vec![Row::new("いう", 3, 2, -2000, P_NOUN), Row::new("あ", 1, 5, 100, P_PROPN), Row::new("ういう", 2, 2, 300, P_NOUN)]);
     s.users.push(vec![Row::new("う", 4, 4, 2500, P_NOUN), Row::new("あいう", 5, 5, -1000, P_NOUN)]);
